@@ -2,13 +2,14 @@
    decoders (go_slice / go_index) must return exactly what the implementation
    returned; property side: the observation is a value or an error. *)
 From Coq Require Import List NArith ZArith Bool.
-From LW Require Export Base.Outcome Base.Bytes Mac.Commands Mac.Spec Mac.Stream Frame.Model Frame.Checked Frame.CheckedJoin.
+From LW Require Export Base.Outcome Base.Bytes Mac.Commands Mac.Spec Mac.Stream Frame.Model Frame.Checked Frame.CheckedJoin Text.Base64 Frame.Text.
 From LWGen Require Import RegistryGen.
 Import ListNotations.
 Open Scope N_scope.
 
 Inductive case :=
 | CPhy (bs : list N) (o : outcome phy)
+| CPhyText (t : list N) (o : outcome phy)        (* PHYPayload.UnmarshalText on arbitrary text *)
 | CStream (up : bool) (h : list (bool * N * Z)) (bs : list N) (o : outcome (list item))
 | CCmd (up : bool) (h : list (bool * N * Z)) (bs : list N) (o : outcome item)
 | CJoinAcc (bs : list N) (o : outcome payload)
@@ -24,6 +25,7 @@ Definition cmd_outcome (up : bool) (h : list (bool * N * Z)) (bs : list N) : out
 Definition check (c : case) : N :=
   match c with
   | CPhy bs o => code (phyeqb (phy_unmarshal_chk bs) o) (okerrb o)
+  | CPhyText t o => code (phyeqb (match b64_decode t with Some b => phy_unmarshal_chk b | None => Err end) o) (okerrb o)
   | CStream up h bs o => code (ieqb (decode_stream (register_all builtin_registry h) up bs) o) (okerrb o)
   | CCmd up h bs o => code (outcome_eqb item_eqb (cmd_outcome up h bs) o) (okerrb o)
   | CJoinAcc bs o => code (outcome_eqb payload_eqb (joinaccept_unmarshal_chk bs) o) (okerrb o)
